@@ -104,6 +104,7 @@ type chaosOpt struct {
 	PaceMs        int                `json:"pace_ms"`
 	SlowPrepareMs int                `json:"slow_prepare_ms"`
 	Snappy        bool               `json:"entry_compression_snappy"`
+	SnapSnappy    int                `json:"snapshot_compression_snappy"` // 0 none, 1 every replica, 2 odd replica ids, 3 even replica ids
 	CmdPad        int                `json:"max_command_padding"`
 	Wire          bool               `json:"real_tcp_transport_behind_corrupting_proxies"`
 	Ballast       int                `json:"snapshot_ballast_bytes"`
@@ -165,6 +166,8 @@ func chaosMode(r *common.Run, sk *sink) {
 		}
 		o.NonVoting = rng.Intn(3) == 0
 		o.Snappy = rng.Intn(3) == 0
+		// own stream: the other options of a case keep their values
+		o.SnapSnappy = r.Rand("snapcomp", c).Intn(4)
 		if rng.Intn(3) == 0 {
 			o.CmdPad = 40 + rng.Intn(400)
 		}
@@ -192,6 +195,12 @@ func chaosMode(r *common.Run, sk *sink) {
 		runChaos(r, sk, o)
 		r.Flush()
 	}
+}
+
+// snapSnappy: does this replica write its snapshot images compressed (images travel between
+// replicas of different settings: the reader goes by the header of the image)
+func (o chaosOpt) snapSnappy(replicaID uint64) bool {
+	return o.SnapSnappy == 1 || (o.SnapSnappy == 2 && replicaID%2 == 1) || (o.SnapSnappy == 3 && replicaID%2 == 0)
 }
 
 func runChaos(r *common.Run, sk *sink, o chaosOpt) {
@@ -275,11 +284,17 @@ func runChaos(r *common.Run, sk *sink, o chaosOpt) {
 		if o.Snappy {
 			cfg.EntryCompressionType = config.Snappy
 		}
+		if o.snapSnappy(uint64(i + 1)) {
+			cfg.SnapshotCompressionType = config.Snappy
+		}
 		if err := c.Hosts[i].StartReplica(members, false, kind, cfg); err != nil {
 			r.Inconclusive(fmt.Sprintf("case %d: replica did not start: %v", o.Case, err))
 			c.StopAll()
 			return
 		}
+	}
+	if o.SnapSnappy != 0 {
+		sk.Count([]string{"", "cases_with_compressed_snapshot_images", "cases_with_mixed_snapshot_compression", "cases_with_mixed_snapshot_compression"}[o.SnapSnappy], 1)
 	}
 	hist := &cluster.History{}
 	w := &cluster.Workload{C: c, ShardID: shardID, Keys: o.Keys, Hist: hist, Seed: o.Seed, Replicas: replicas,
@@ -312,6 +327,9 @@ func runChaos(r *common.Run, sk *sink, o chaosOpt) {
 			cfg.IsNonVoting = true
 			if o.Snappy {
 				cfg.EntryCompressionType = config.Snappy
+			}
+			if o.snapSnappy(nvID) {
+				cfg.SnapshotCompressionType = config.Snappy
 			}
 			if err := nvHost.StartReplica(nil, true, kind, cfg); err == nil {
 				repMu.Lock()
